@@ -13,6 +13,7 @@ func init() {
 			ruleStickyAfterFinish(c, "C04.7")
 			ruleWatcher(c, "C04.8")
 			ruleQueueDiscipline(c, "C04.9")
+			ruleErrorDiscipline(c, "C04.10")
 		},
 		Explain:    "Static necessary conditions of tunnel termination reaching both ends: every client loop exit closes the channel with the cause; the server loop defers the cancel of the handlers' root context, derived from the carrier context; the channel close sets the flag, stores the cause, cancels every stream and the channel context, after running the tear-down; new RPCs test the flag in the same critical section; every blocking wait in the package has a release edge fired by the termination functions (A10), with the stream contexts cancelled on every finishing path; close paths reach the carrier (tear-down CloseSend, Stop: CloseSend every instance then wait; Add/Done pairing); sticky errors after finish. Necessary, not sufficient for 'nothing hangs'.",
 		Assume:     []string{"the transport reports failures to Recv", "context cancellation wakes Done() waiters"},
@@ -28,6 +29,7 @@ func init() {
 			ruleCloseOnce(c, "C08.5b")
 			ruleLateFramesInert(c, "C08.6")
 			ruleEmitIDs(c, "C08.7")
+			ruleErrorDiscipline(c, "C08.9")
 		},
 		Explain:    "Static necessary conditions of unique, increasing ids and one handler invocation per RPC: allocation and first send inside one continuously held mutex; counter written only by +1 under the channel mutex, post-increment value used, overflow test first; stream handed out only after a successful new_stream send (entry removed and no watcher otherwise); server-side id validation by exactly `<=` against the high-water mark with tunnel-level refusal; the dispatched descriptor and implementation come from one lookup of this frame's own service/method names; exactly one dispatch spawn and one handler call per arm; late frames inert.",
 		Assume:     []string{"lock identity is type + field", "grpchan.HandlerMap.QueryService returns the registered service"},
@@ -62,6 +64,7 @@ func init() {
 			ruleCloseSafety(c, "C14.9")
 			ruleLocalFailureNotifiesPeer(c, "C14.10")
 			ruleInvokeAborts(c, "C14.11")
+			ruleBrokenStreamEndsRPC(c, "C14.12")
 		},
 		Explain:    "Static necessary conditions of 'nothing left behind': every go statement falls in a verified termination class (straight-line sender, context watcher whose context is cancelled on every finishing path, receive loop, dispatch with deferred finish); every table insert has its delete on every finishing path (both ends) and on first-send failure; stream contexts are cancelled on every finishing path; cancel empties the queue; no run-time writes to package-level state; registry add/deferred-remove pairing.",
 		Assume:     []string{"handlers return when their context is cancelled and their blocking operations are released (C04.4)"},
